@@ -25,6 +25,7 @@ func VerifC18Register() {
 	cfg.Pass = pass
 	cfg.EnableCapabilityNegotiation = capneg
 	conn := Client(cfg)
+	conn.initialise()
 	conn.out = make(chan string, 16)
 	if vLen("track", 0, 1) == 1 {
 		conn.EnableStateTracking()
